@@ -42,7 +42,8 @@ def build_class(spec, name=None):
             kw['readonly'] = bool(p.get('readonly'))
         else:
             kw['default'] = p['default']
-            kw['readonly'] = bool(p.get('readonly'))
+            # ro_how == 'cfg': writable in the class, made read-only by the configuration (cfg_overrides)
+            kw['readonly'] = bool(p.get('readonly')) and p.get('ro_how') != 'cfg'
         if p.get('export', True) is not True:
             kw['export'] = p['export']
         if p.get('update_unchanged') is not None:
@@ -155,10 +156,21 @@ def wire_name(name, export, predefined=False):
 # strategies
 
 @st.composite
-def param_spec(draw, name, depth=2, safe_const=True):
+def param_spec(draw, name, depth=2, safe_const=True, ro_variants=False):
     T = draw(specs.tree_spec(depth))
     p = {'name': name, 'T': T, 'default': draw(specs.valid_value(T, True))}
-    flavour = draw(st.sampled_from(['rw', 'rw', 'rw', 'rw', 'ro', 'const', 'hidden', 'custom', 'rw-nowrite']))
+    if ro_variants and draw(st.integers(0, 2)) == 0:
+        C = draw(configured_T(T, p['default']))
+        if C and C != T:
+            p['cfgT'] = C
+    flavour = draw(st.sampled_from(['rw', 'rw', 'rw', 'rw', 'ro', 'const', 'hidden', 'custom', 'rw-nowrite']
+                                   + (['ro-write', 'ro-cfg'] if ro_variants else [])))
+    if flavour in ('ro-write', 'ro-cfg'):
+        # read-only for clients although the class has a write method: declared so (internally writable parameter) or
+        # switched to read-only in the configuration - the node must use cfg_overrides(spec)
+        p.update(readonly=True, constant=False, export=True, write=draw(st.sampled_from(['value', 'altered'])),
+                 read=draw(st.sampled_from([None, 'cached'])), ro_how='class+write' if flavour == 'ro-write' else 'cfg')
+        return p
     if flavour == 'const' and safe_const and rm.kinds(T) & {'blob', 'scaled'}:
         # constants whose transport form differs from the internal one are C06's business
         flavour = 'ro'
@@ -204,10 +216,51 @@ def cmd_spec(draw, name):
     return c
 
 
+def cfg_overrides(spec):
+    """configuration entries a node needs for this class spec"""
+    res = {}
+    for p in spec['params']:
+        if p.get('ro_how') == 'cfg':
+            res.setdefault(p['name'], {})['readonly'] = True
+        C = p.get('cfgT')
+        if C:
+            ent = res.setdefault(p['name'], {})
+            if C['k'] in ('double', 'int'):
+                ent.update(min=C['min'], max=C['max'])
+            elif C['k'] == 'scaled':
+                ent.update(min=C['lo'] * C['scale'], max=C['hi'] * C['scale'])
+            elif C['k'] == 'string':
+                ent.update(maxchars=C['max'])
+    return res
+
+
+def effective_T(p):
+    """the datatype of the parameter on the instance: class datatype with the configured properties applied"""
+    return p.get('cfgT') or p['T']
+
+
 @st.composite
-def class_spec(draw, max_params=4, max_cmds=2, depth=2, safe_const=True):
+def configured_T(draw, T, default):
+    """same datatype with limits moved by the configuration (wider or narrower than in the class, containing the default)"""
+    k = T['k']
+    if k == 'double' and abs(default) < 1e15:
+        return dict(T, min=default - draw(st.sampled_from([0.0, 0.5, 1.0, 100.0, 1e6])),
+                    max=default + draw(st.sampled_from([0.0, 0.5, 1.0, 100.0, 1e6])))
+    if k == 'int':
+        return dict(T, min=max(-(1 << 63), default - draw(st.sampled_from([0, 1, 100, 70000]))),
+                    max=min(1 << 64, default + draw(st.sampled_from([0, 1, 100, 70000]))))
+    if k == 'scaled':
+        n = round(default / T['scale'])
+        return dict(T, lo=n - draw(st.sampled_from([0, 1, 100, 70000])), hi=n + draw(st.sampled_from([0, 1, 100, 70000])))
+    if k == 'string' and not T.get('text'):
+        return dict(T, max=max(len(default), T['min']) + draw(st.sampled_from([0, 1, 5, 40])))
+    return None
+
+
+@st.composite
+def class_spec(draw, max_params=4, max_cmds=2, depth=2, safe_const=True, ro_variants=False):
     nparams = draw(st.integers(1, max_params))
     ncmds = draw(st.integers(0, max_cmds))
     return {'base': 'Module',
-            'params': [draw(param_spec(f'p{i}', depth, safe_const)) for i in range(nparams)],
+            'params': [draw(param_spec(f'p{i}', depth, safe_const, ro_variants)) for i in range(nparams)],
             'cmds': [draw(cmd_spec(f'c{i}')) for i in range(ncmds)]}
